@@ -94,6 +94,30 @@ CHECKS["C20"] = dict(
          "oracles of the model: the e-mail library's renderings of a message, Python's int() on arguments, Mailbox.expunge/append/"
          "pack as atomic INBOX updates (C05/C02/C13), UIDs increasing and never reused (C02); commands atomic (QUIT's expunge "
          "bypassing the mailbox queue is C10); LIST/UIDL multi-line framing is checked by a strict tokenizer, not proved.", ref="6/C20")
+CHECKS["C09"] = dict(
+    technique="Coq proof over a hand-written model of normpath/join/validator/command path derivations + differential correspondence (os.path and the real validator, evaluated in Coq) + jailed end-to-end attack run judged by the Coq model",
+    text="Theorems (all names, references and patterns as arbitrary strings; all commands; all histories of table operations; "
+         "by induction, no bound): every path a command derives from a name the validator accepts is lexically inside the mail "
+         "root; the validator refuses exactly the names that after its own normalisation are absolute or leave the root at any "
+         "step; refused names make the whole command fail before any path is derived; all mailbox-table rows stay inside. Tied "
+         "to /repo on every run by exhaustive small-alphabet plus random comparison of model vs os.path and canonical_mbox_name, "
+         "and by a jailed run of every name position x encoding x attack name with file-system diff, response inspection and "
+         "model-predicted refusals.",
+    note=TB + "Modelled not verified: kernel path resolution (lexical, no symlinks inside the root; RENAME's transient symlink taken "
+         "as the final rename); pathlib/mailbox.MH joining as os.path.join (compared modulo normpath each run); str.lower() "
+         "(checked over all of Unicode each run); the parser handing handlers normpath(name); cmd_paths is an over-approximating "
+         "transcription of the handlers' path derivations tied by the end-to-end run; SQLite LIKE row selection left arbitrary.",
+    ref="6/C09")
+CHECKS["C06"] = dict(
+    technique="Coq proofs (outcome table of command(); every step of the world model answers its issuer exactly once, last) + probes of every command x argument class x session state through the real IMAPClientProxy.run under a virtual clock",
+    text="Theorems: BaseClientHandler.command pushes exactly one tagged line for every handler outcome (none when deferred by "
+         "IDLE) and keeps the connection; in every reachable world of Model/Mbox.v queued notifications are untagged and every "
+         "command step sends its issuer exactly one tagged response as the last thing, for all arguments. On the implementation "
+         "every command template x message-set class x mailbox class x session state (also after a restart) is sent through "
+         "the real proxy loop: one complete tagged line with the right tag, virtual elapsed time below COMMAND_TIMEOUT (never "
+         "the watchdog), session usable afterwards unless BYE.",
+    note=TB + "The outcome table of command() is a hand model compared with the real method driven by stub handlers; 'promptly' is "
+         "measured under the virtual clock (timers free to fire); concurrency between sessions is C10's.", ref="6/C06")
 NOT_YET = {}
 
 props = [json.loads(l) for l in (V / "properties.jsonl").read_text().splitlines() if l.strip()]
